@@ -63,7 +63,7 @@ import logging
 
 from .. import kernel as K
 from .. import simfs
-from ..basicdrv import Driver
+from ..basicdrv import Driver, suspend_resume
 from .common import execute, b, u
 
 NAME = 'cas'
@@ -161,6 +161,9 @@ def _gen_name(rng, used):
     if rng.random() < 0.03:
         return ''
     n = rng.choice([1, 2, 3, 4, 5, 6, 7, 8, 8, 8])
+    if rng.random() < 0.08:
+        # longer than the eight characters a tape header holds: cut on writing, and on searching
+        n = rng.randint(9, 12)
     s = ''.join(rng.choice(NAMECH) for _ in range(n))
     if n >= 3 and rng.random() < 0.1:
         s = s[:1] + ' ' + s[2:]
@@ -302,11 +305,101 @@ def _gen_read(rng, name, kind, flav=None):
     return op
 
 
+def _gen_live(rng, big, wav, hide):
+    """
+    A tape that is recorded on more than once: files are written where the head happens to be (behind a
+    file that was just read, at the start of a tape that a failed search has rewound, behind a SAVE that
+    failed), and the session is suspended and resumed (state file + image survive, nothing else) between
+    and inside recordings. The history ends with a new Session that looks for every name ever written.
+    """
+    small = wav
+    ops = []
+    used = []
+    written = []   # (name, read kind) of everything ever written, in order of writing
+
+    def write(at=None, susp=0.0, force=None):
+        op, kind = _gen_write(rng, big, small, used, force)
+        if at:
+            op['at'] = at
+        if op['op'] == 'data' and rng.random() < susp:
+            n = len(op['items'])
+            op['susp'] = sorted(set(rng.randint(0, n) for _ in range(rng.choice([1, 1, 2]))))
+        ops.append(op)
+        written.append((op['name'], kind))
+
+    def read(name, kind):
+        op = _gen_read(rng, name, kind)
+        if op['as'] == 'D' and op.get('how') == 'chunk' and rng.random() < 0.25:
+            op['susp'] = [rng.randint(0, 3)]
+        ops.append(op)
+
+    def miss():
+        ops.append({'op': 'read', 'name': rng.choice(['NOSUCH', 'zz', 'NOSUCHFILE12']), 'as': rng.choice(['D', 'L', 'M'])})
+
+    for _ in range(rng.choice([0, 1, 2, 2, 3]) if not wav else rng.choice([0, 1, 2, 2])):
+        write(susp=0.15)
+    if ops and rng.random() < 0.7:
+        ops.append({'op': 'restart'})
+    for _ in range(rng.randint(1, 3) if wav else rng.randint(2, 5)):
+        r = rng.random()
+        if r < 0.22:
+            # record, suspend while the tape is in recording mode, record
+            write(at=rng.choice(['here', None]), susp=0.5)
+            ops.append({'op': 'suspend'})
+            write(at=rng.choice(['here', None]), susp=0.3)
+        elif r < 0.44:
+            # read a file, record behind it (over whatever follows)
+            if written:
+                read(*rng.choice(written))
+            write(at='here', susp=0.6, force='raw' if rng.random() < 0.4 else None)
+            if rng.random() < 0.4:
+                ops.append({'op': 'suspend'})
+                write(at='here')
+        elif r < 0.62:
+            # look for a file that is not there (the tape is rewound), record
+            miss()
+            write(at='here', susp=0.3)
+            if rng.random() < 0.3:
+                ops.append({'op': 'restart'})
+        elif r < 0.74 and hide:
+            # a SAVE that fails behind its header, then another file
+            ops.append({'op': 'failsave', 'name': _gen_name(rng, []), 'fmt': rng.choice(['B', 'B', 'A']),
+                        'at': rng.choice(['here', None])})
+            write(at=rng.choice(['here', None]))
+        elif r < 0.80:
+            ops.append({'op': 'restart'})
+        elif r < 0.88:
+            ops.append({'op': 'suspend'})
+        elif written:
+            read(*rng.choice(written))
+    ops.append({'op': 'restart'})
+    seen = []
+    for nk in written:
+        if nk not in seen:
+            seen.append(nk)
+    if rng.random() < 0.2:
+        rng.shuffle(seen)
+    for (name, kind) in seen:
+        ops.append(_gen_read(rng, name, kind))
+    return ops
+
+
 def gen(rng, tier, prop):
     big = tier != 'quick'
+    arm = rng.random()
+    if arm < 0.32:
+        wav = rng.random() < 0.2
+        hide = rng.random() < 0.35
+        cfg = {
+            'image': 'WAV' if wav else 'CAS',
+            'syntax': rng.choice(['advanced'] * 14 + ['pcjr'] * 4 + ['tandy']),
+        }
+        if hide:
+            cfg['hide'] = True
+        return {'machine': NAME, 'prop': prop, 'cfg': cfg, 'ops': _gen_live(rng, big, wav, hide)}
+    arm = (arm - 0.32) / 0.68
     wav = rng.random() < 0.12
     small = wav
-    arm = rng.random()
     torn = arm >= 0.45 and arm < 0.75
     nfiles = rng.randint(1, 3 if wav else 4)
     ops = []
@@ -382,10 +475,29 @@ def simplify(cfg, ops):
         yield dict(cfg, image='CAS'), ops
     if cfg.get('syntax') != 'advanced':
         yield dict(cfg, syntax='advanced'), ops
+    if cfg.get('hide') and not any(op['op'] == 'failsave' for op in ops):
+        c = dict(cfg)
+        del c['hide']
+        yield c, ops
     for i, op in enumerate(ops):
         def rep(new):
             return cfg, ops[:i] + [new] + ops[i + 1:]
         k = op['op']
+        if op.get('susp'):
+            o = dict(op)
+            del o['susp']
+            yield rep(o)
+            if len(op['susp']) > 1:
+                yield rep(dict(op, susp=op['susp'][:1]))
+                yield rep(dict(op, susp=op['susp'][1:]))
+        if op.get('at') and k != 'failsave':
+            o = dict(op)
+            del o['at']
+            yield rep(o)
+        if k in ('data', 'save', 'bsave', 'read', 'failsave') and len(op.get('name', '')) > 8:
+            yield rep(dict(op, name=op['name'][:8]))
+        if k == 'suspend':
+            yield rep({'op': 'restart'})
         if k == 'data':
             if op['flav'] != 'raw':
                 # same number of bytes as one raw stream
@@ -454,6 +566,10 @@ class TFile(object):
         if k == 'data':
             self.typ = 'D'
             self.L = _model_len_data(op)
+        elif k == 'failsave':
+            # what a SAVE that was refused behind its header has left: a header, and nothing that can be read
+            self.typ = op.get('fmt', 'B')
+            self.L = 0
         elif k == 'save':
             self.typ = op['fmt']
             self.listing = _listing(op['lines'])
@@ -467,6 +583,9 @@ class TFile(object):
             self.L = len(self.data)
         self.torn = False
         self.after = None
+        self.junk = k == 'failsave'
+        self.resumed = False     # the session was suspended and resumed while the tape was recording this file or
+                                 # had just recorded it
 
     @property
     def trunk(self):
@@ -477,6 +596,8 @@ class TFile(object):
 
     def lenclass(self):
         """Length class used in signatures."""
+        if self.junk:
+            return 'failed-save'
         if self.typ in ('D', 'A'):
             kind = 'datafile' if self.typ == 'D' else 'ascii-program'
             m = self.L % 255
@@ -508,11 +629,13 @@ class Tape(object):
         self.last_read = None    # file read to its end by the previous tape operation in this session
         self.last_miss_skipped = 0
         self.wound = False       # rewound by a miss (head before the intro)
+        self.debris = False      # behind the last file of the list there may be remains of files recorded over
+        self.recording = False   # the last thing the tape did in this session was recording
 
     def search_from(self, start, name, types):
         for j in range(start, len(self.files)):
             f = self.files[j]
-            if (not name or f.trunk.rstrip() == name.rstrip()) and f.typ in types:
+            if (not name or f.trunk.rstrip() == name[:8].rstrip()) and f.typ in types:
                 return j
         return None
 
@@ -521,7 +644,7 @@ class Tape(object):
         skipped = []
         for j in range(self.pos, len(self.files)):
             f = self.files[j]
-            if (not name or f.trunk.rstrip() == name.rstrip()) and f.typ in types:
+            if (not name or f.trunk.rstrip() == name[:8].rstrip()) and f.typ in types:
                 return j, skipped
             skipped.append(f)
         return None, skipped
@@ -546,19 +669,28 @@ class Exec(object):
         self.ckpts = [(0, 0)]    # (image size, number of model files) at each close
         self.sessions = 0
         self.wrote_before_session = None   # (index of the first file appended after a restart, session number)
+        self.hide = bool(self.cfg.get('hide'))
+        self.no_tear = False     # something was recorded over: the image sizes at the checkpoints mean nothing any more
+        self.resumes = 0
+        self.pending_resumed = False   # resumed in recording mode: the next file recorded starts where the session
+                                       # thinks the last one ended
+        self.involved = []       # files the current tape operation passes over or reads
 
     # -- sessions ---------------------------------------------------------
 
     def driver(self):
         if self.d is None:
             spec = ('WAV:' if self.wav else 'CAS:') + self.img
+            kw = {'hide_protected': True} if self.hide else {}
             self.d = Driver(self.w, devices={'CAS1:': spec, 'C:': self.cdir}, current_device='CAS1:',
-                            syntax=self.cfg.get('syntax', 'advanced'))
+                            syntax=self.cfg.get('syntax', 'advanced'), **kw)
             self.sessions += 1
             self.tape.pos = 0
             self.tape.wound = False
             self.tape.last_read = None
             self.tape.last_miss_skipped = 0
+            self.tape.recording = False
+            self.pending_resumed = False
         return self.d
 
     def close(self):
@@ -577,6 +709,33 @@ class Exec(object):
         self.run.fault('restart')
         self.driver()
 
+    def do_suspend(self, open_file=None):
+        """
+        The session is suspended, shut down and resumed from its state file: by design the resumed session
+        finds the tape where the suspended one left it, in the same mode, with the same file open.
+        """
+        t = self.tape
+        run = self.run
+        d = self.driver()
+        self.resumes += 1
+        mode = 'recording' if t.recording else 'playing'
+        run.probe('suspend:' + mode + (':file-open' if open_file is not None else ''))
+        run.state(self.cfg['image'], 'suspend', mode, open_file is not None, t.pos, len(t.files), t.wound)
+        if t.recording:
+            if open_file is not None:
+                open_file.resumed = True
+                if self.wav:
+                    # the session that is shut down completes the file on its way out, the resumed one records over
+                    # that from the point of suspension; sound of different length may leave a tail behind
+                    t.debris = True
+                    self.no_tear = True
+            else:
+                if 0 < t.pos <= len(t.files):
+                    t.files[t.pos - 1].resumed = True
+                self.pending_resumed = True
+        self.d = suspend_resume(d, os.path.join(self.root, 'state.pcb'))
+        run.fault('suspend-resume')
+
     # -- helpers ----------------------------------------------------------
 
     override = None
@@ -584,6 +743,15 @@ class Exec(object):
     def V(self, sig, detail):
         if self.override is not None:
             sig, detail = self.override[0], self.override[1] + ' :: ' + detail
+        res = [g for g in self.involved if g.resumed]
+        junk = [g for g in self.involved if g.junk]
+        if res:
+            sig = 'resumed-while-recording:%s:%s' % (self.cfg['image'], sig)
+            detail += ' :: the session was suspended and resumed while recording (or just behind) %r' % (
+                [g.trunk for g in res],)
+        elif junk:
+            sig = 'behind-failed-save:' + sig
+            detail += ' :: passes over what the failed SAVE of %r left on the tape' % ([g.trunk for g in junk],)
         self.run.violate('C29', sig, detail)
 
     def ex(self, line, **kw):
@@ -613,39 +781,117 @@ class Exec(object):
         for _ in range(2 * n + 2):
             if t.pos >= n:
                 return True
-            f = t.files[t.pos]
-            before = t.pos
+            # what a failed SAVE left cannot be read: it is passed over on the way to the next file
+            k = t.pos
+            while k < n and t.files[k].junk:
+                k += 1
+            if k >= n:
+                # nothing readable ahead: no way to stop the tape right behind the last header
+                return False
+            f = t.files[k]
             kind = {'D': 'D', 'M': 'M'}.get(f.typ, 'L')
             self.do_read({'op': 'read', 'name': u(f.name), 'as': kind, 'how': 'chunk', 'chunk': 255})
             self.run.probe('positioning-read')
-            if t.pos != before + 1:
+            if t.pos != k + 1:
                 return False
         return t.pos >= n
 
-    def do_write(self, op):
+    def position(self, op):
+        """
+        Bring the head to where the file is to be recorded: 'here' = wherever it is (the recording replaces
+        what lies ahead), otherwise behind the last file of the tape.
+        """
         t = self.tape
         run = self.run
         if t.torn_from is not None:
             run.probe('write-skipped-after-tear')
-            return
+            return False
         self.driver()
-        if not self.to_end():
+        if op.get('at') == 'here':
+            if t.pos < len(t.files):
+                run.probe('record-over:' + ('rewound-tape' if t.wound else 'start-of-tape' if t.pos == 0 else 'middle'))
+            elif t.wound:
+                run.probe('write-at-start-of-empty-tape')
+        elif not self.to_end():
             run.probe('write-skipped-no-position')
             self.resync('to-end-failed')
+            return False
+        return True
+
+    def recorded(self, f):
+        """File f has been recorded at the head position: whatever the model had from there on is gone."""
+        t = self.tape
+        if t.pos < len(t.files):
+            self.run.probe('files-recorded-over', len(t.files) - t.pos)
+            t.debris = True
+        if t.debris or t.wound or f.junk:
+            self.no_tear = True
+        # the file read to its end immediately before this write, in this Session
+        f.after = t.last_read
+        if self.pending_resumed:
+            f.resumed = True
+            self.pending_resumed = False
+        del t.files[t.pos:]
+        t.files.append(f)
+        t.pos = len(t.files)
+        t.last_read = None
+        t.last_miss_skipped = 0
+        t.wound = False
+        t.recording = True
+        if self.sessions > 1 and len(t.files) > 1 and self.wrote_before_session is None:
+            self.wrote_before_session = (len(t.files) - 1, self.sessions)
+
+    def do_failsave(self, op):
+        """
+        SAVE in unprotected form of a program that was loaded from a protected file, in a session started with
+        hide_protected: refused with Illegal function call, but only after the header has gone to the tape.
+        What is left there is no file; the files recorded behind it are.
+        """
+        t = self.tape
+        run = self.run
+        if not self.hide:
+            run.probe('failsave-skipped-not-hiding')
             return
+        if not self.position(op):
+            return
+        self.involved = []
+        name = b(op['name'])
+        fmt = op.get('fmt', 'B')
+        for line in (b'NEW', b'1 REM', b'SAVE "C:PP.BAS",P', b'LOAD "C:PP.BAS"'):
+            r = self.ex(line)
+            if r.out:
+                raise K.HarnessError('preparing a protected program: %r -> %r' % (line, r.out))
+        r = self.ex(b'SAVE "CAS1:' + name + b'"' + (b',A' if fmt == 'A' else b''))
+        run.probe('failed-save:%s:error-%s' % (fmt, r.err))
+        run.state(self.cfg['image'], 'failsave', fmt, r.err, t.pos, len(t.files))
+        self.ex(b'CLOSE')
+        self.ex(b'NEW')
+        self.recorded(TFile(op))
+
+    def do_write(self, op):
+        t = self.tape
+        run = self.run
+        if not self.position(op):
+            return
+        self.involved = []
         f = TFile(op)
-        d = self.driver()
         name = b(op['name'])
         k = op['op']
-        run.state(self.cfg['image'], k, f.bucket(), len(t.files), self.sessions > 1)
+        run.state(self.cfg['image'], k, f.bucket(), len(t.files), self.sessions > 1, t.pos < len(t.files), t.wound,
+                  self.pending_resumed)
         if k == 'data':
+            susp = [int(x) for x in op.get('susp', [])]
             r = self.ex(b'OPEN "CAS1:' + name + b'" FOR OUTPUT AS 1')
             if r.err is not None:
                 self.V('write-error:open-output:%s' % r.err, 'OPEN FOR OUTPUT of %r: %r' % (name, r.out))
                 self.ex(b'CLOSE')
                 self.resync('write-error')
                 return
-            for it in op['items']:
+            t.recording = True
+            for i, it in enumerate(op['items']):
+                if i in susp:
+                    self.do_suspend(open_file=f)
+                d = self.driver()
                 if op['flav'] == 'raw':
                     d.set(b'A$', b(it))
                     r = self.ex(b'PRINT#1,A$;')
@@ -658,6 +904,8 @@ class Exec(object):
                 if r.err is not None:
                     self.V('write-error:print:%s' % r.err, 'PRINT#/WRITE# to %r: %r' % (name, r.out))
                     break
+            if [x for x in susp if x >= len(op['items'])]:
+                self.do_suspend(open_file=f)
             r = self.ex(b'CLOSE')
             if r.err is not None:
                 self.V('write-error:close:%s' % r.err, 'CLOSE of %r: %r' % (name, r.out))
@@ -683,13 +931,7 @@ class Exec(object):
             r = self.ex(b'DEF SEG=&HB800:BSAVE "CAS1:' + name + b'",%d,%d' % (off, len(data)))
             if r.err is not None:
                 self.V('write-error:bsave:%s' % r.err, 'BSAVE of %r: %r' % (name, r.out))
-        # the file read to its end immediately before this write, in this Session
-        f.after = t.last_read
-        t.files.append(f)
-        t.pos = len(t.files)
-        t.last_read = None
-        if self.sessions > 1 and len(t.files) > 1 and self.wrote_before_session is None:
-            self.wrote_before_session = (len(t.files) - 1, self.sessions)
+        self.recorded(f)
 
     # memory blocks travel between the harness and video memory through BLOAD/BSAVE on a scratch disk
 
@@ -716,17 +958,35 @@ class Exec(object):
     # -- reading ----------------------------------------------------------
 
     def do_read(self, op):
+        self.pending_resumed = False
+        try:
+            self._read(op)
+        finally:
+            self.involved = []
+        if self.hide and op.get('as', 'L') in ('L', 'G'):
+            # with a protected program in memory the helper statements (BLOAD, BSAVE) are refused
+            self.ex(b'NEW')
+
+    def _read(self, op):
         t = self.tape
         run = self.run
-        d = self.driver()
+        self.driver()
         name = b(op['name'])
         kind = op.get('as', 'L')
+        if kind not in TYPES_FOR:
+            kind = 'L'
         types = TYPES_FOR[kind]
         j, skipped = t.search(name, types)
         touches_torn = t.torn_from is not None and (j is None or j >= t.torn_from)
         f = t.files[j] if j is not None else None
+        # no telling what such a search meets: it matches what a failed SAVE left, or it runs past the last file
+        # of the model into what may be left of files that were recorded over
+        loose = (f is not None and f.junk) or (f is None and t.debris)
+        self.involved = skipped + ([f] if f is not None else [])
         run.state(self.cfg['image'], 'read', kind, f.bucket() if f else None, t.pos, len(skipped),
-                  touches_torn, self.sessions)
+                  touches_torn, self.sessions, loose, t.wound, t.recording, self.resumes > 0,
+                  len([s for s in skipped if s.junk]), len(name) > 8)
+        t.recording = False
         prev_read = t.last_read
         prev_miss_skipped = t.last_miss_skipped
         t.last_read = None
@@ -778,7 +1038,33 @@ class Exec(object):
             self.resync('torn')
             return
 
-        exp_msgs = [s.msg(b'Skipped.') for s in skipped] + ([f.msg(b'Found.')] if f is not None else [])
+        if loose:
+            run.probe('open-ended-search:' + ('matches-failed-save' if f is not None else 'runs-past-last-file'))
+            if _match_msgs(got_msgs, [(s.msg(b'Skipped.'), s.junk) for s in skipped], prefix=True) is None:
+                self.V('messages:other', '%r: the files ahead of the head are %r, got %r' % (
+                    stmt, [s.msg(b'Skipped.') for s in skipped if not s.junk], got_msgs))
+            self.ex(b'CLOSE')
+            if r.err == 55:
+                self.V('stuck-open:other', '%r gave File already open although no cassette file is open' % (stmt,))
+            elif r.err == 24:
+                # ran off the end: the tape is back at its start
+                run.probe('miss')
+                t.pos = 0
+                t.wound = True
+                t.last_miss_skipped = len(got_msgs)
+                return
+            self.resync('open-ended-search')
+            return
+
+        # the header a failed SAVE left may or may not be announced when it is passed over
+        exp_items = [(s.msg(b'Skipped.'), s.junk) for s in skipped] + ([(f.msg(b'Found.'), False)] if f is not None else [])
+        exp_msgs = [m for (m, opt) in exp_items if not opt]
+        if len(exp_msgs) != len(exp_items):
+            run.probe('search-passes-failed-save')
+            if _match_msgs(got_msgs, exp_items) is not None:
+                got_msgs = exp_msgs
+            else:
+                got_msgs = [m for m in got_msgs if m in exp_msgs or m not in [m2 for (m2, opt) in exp_items if opt]]
         exp_err = None if f is not None else 24
         bad = False
         if r.err == 55:
@@ -819,11 +1105,17 @@ class Exec(object):
             return
         if f is None:
             run.probe('miss')
+            if t.files:
+                run.probe('miss-on-recorded-tape')
             t.pos = 0
             t.wound = True
             t.last_miss_skipped = len(skipped)
             return
         run.probe('found:' + self.cfg['image'] + ':' + f.typ)
+        if len(name) > 8:
+            run.probe('found-by-long-name')
+        if f.resumed:
+            run.probe('found-file-recorded-across-resume')
         if self.sessions > 1:
             run.probe('found-in-later-session')
         if self.wrote_before_session and j >= self.wrote_before_session[0] and self.sessions > self.wrote_before_session[1]:
@@ -844,6 +1136,7 @@ class Exec(object):
             return
         t.pos = j + 1
         t.last_read = f
+        t.wound = False
 
     def check_found(self, f, op, kind, off):
         if kind == 'D':
@@ -890,11 +1183,10 @@ class Exec(object):
             self.V('messages:other', '%r: expected %r, got %r' % (stmt, exp, got))
 
     def eof(self):
-        d = self.driver()
         r = self.ex(b'E%=EOF(1)')
         if r.err is not None:
             return None, r
-        return int(d.get(b'E%')), r
+        return int(self.driver().get(b'E%')), r
 
     def gather_extra(self, cap=400):
         """After the expected end: what else can be read from file 1?"""
@@ -964,7 +1256,14 @@ class Exec(object):
                 return True
             k = max(1, min(255, int(op.get('chunk', 255))))
             pos = 0
+            susp = [int(x) for x in op.get('susp', [])]
+            ci = 0
             while pos < len(want):
+                if ci in susp:
+                    # suspended and resumed with the file open for input
+                    self.do_suspend()
+                    d = self.driver()
+                ci += 1
                 e, r = self.eof()
                 if e is None:
                     self.V('read-error:eof:%s' % r.err, 'EOF(1) on %r: %r' % (f.name, r.out))
@@ -1065,6 +1364,8 @@ class Exec(object):
                    'recorded %r' % (self.torn_mode, f.name, _diff(got, want), _diff(want, got)))
 
     def check_listing(self, f):
+        if self.hide and f.typ == 'P':
+            return self.check_run(f)
         r = self.ex(b'LIST', poll_cap=100000)
         got = [l for l in r.text.split(b'\r\n') if l]
         if r.err is not None or got != f.listing:
@@ -1077,7 +1378,28 @@ class Exec(object):
             return False
         return True
 
+    def check_run(self, f):
+        """
+        A protected program in a session that hides protected programs cannot be listed: run it. The programs
+        of this machine print their string constants and do nothing else.
+        """
+        want = b''
+        for l in f.listing:
+            text = l.split(b' ', 1)[1]
+            if text.startswith(b'PRINT "') and text.endswith(b'"'):
+                want += text[7:-1] + b'\r\n'
+        r = self.ex(b'RUN', poll_cap=100000)
+        self.run.probe('protected-program-checked-by-running-it')
+        if r.err is not None or r.out != want:
+            self.V('program-mismatch:' + f.lenclass(),
+                   'protected program %r (%d bytes) loaded in a session that hides protected programs: RUN printed %r, the '
+                   'program saved prints %r; error %r' % (f.name, f.L, _diff(r.out, want), _diff(want, r.out), r.err))
+            return False
+        return True
+
     def check_listing_torn(self, f):
+        if self.hide and f.typ == 'P':
+            return
         r = self.ex(b'LIST', poll_cap=100000)
         got = [l for l in r.text.split(b'\r\n') if l]
         self.run.probe('torn-program-checked')
@@ -1151,7 +1473,7 @@ class Exec(object):
         for (s, nf) in self.ckpts:
             if nf < len(t.files) and s <= size:
                 ck = (s, nf)
-        if ck is None or size == 0 or t.torn_from is not None:
+        if ck is None or size == 0 or t.torn_from is not None or self.no_tear or t.debris:
             self.run.probe('tear-noop')
             self.driver()
             return
@@ -1218,6 +1540,10 @@ class Exec(object):
                 self.do_read(op)
             elif k == 'restart':
                 self.restart()
+            elif k == 'suspend':
+                self.do_suspend()
+            elif k == 'failsave':
+                self.do_failsave(op)
             elif k == 'tear':
                 self.do_tear(op)
             elif k == 'alien':
@@ -1248,6 +1574,25 @@ def _prefix_of_record_subsequence(got, stream, rec):
         i += 1
         g += rec
     return True
+
+
+def _match_msgs(got, exp, prefix=False):
+    """
+    Do the messages got account for exp = [(message, optional)...] in that order? With prefix, anything may
+    follow. Returns the messages matched (optional ones included) or None.
+    """
+    def rec(i, k):
+        if k == len(exp):
+            return [] if (prefix or i == len(got)) else None
+        msg, opt = exp[k]
+        if i < len(got) and got[i] == msg:
+            r = rec(i + 1, k + 1)
+            if r is not None:
+                return [msg] + r
+        if opt:
+            return rec(i, k + 1)
+        return None
+    return rec(0, 0)
 
 
 def _diff(a, b_):
